@@ -269,23 +269,16 @@ func c19Source(form byte, kind, val string) (any, span) {
 	panic("bad source kind " + kind)
 }
 
-func runC19(input string) string {
-	var dstF, srcF, bufF string
-	for _, kv := range strings.Split(input, ";") {
-		switch {
-		case strings.HasPrefix(kv, "dst="):
-			dstF = kv[4:]
-		case strings.HasPrefix(kv, "src="):
-			srcF = kv[4:]
-		case strings.HasPrefix(kv, "buf="):
-			bufF = kv[4:]
-		}
-	}
-	d := strings.SplitN(dstF, ":", 3)
-	dkind, dval := d[0], d[1]
-	dcap, _ := strconv.Atoi(d[2])
+// c19Dest builds a destination of the named kind holding the given value; for text kinds
+// text() gives (span of the stored bytes, len, cap) and oldSp the span of the initial backing array.
+type c19D struct {
+	dst   any
+	show  func() string // canonical text of the destination now
+	text  func() (span, int, int)
+	oldSp span
+}
 
-	// destination
+func c19Dest(dkind, dval string, dcap int) *c19D {
 	var (
 		dst   any
 		show  func() string // canonical text of the destination now
@@ -366,6 +359,31 @@ func runC19(input string) string {
 	default:
 		panic("bad destination kind " + dkind)
 	}
+
+	return &c19D{dst: dst, show: show, text: text, oldSp: oldSp}
+}
+
+func runC19(input string) string {
+	if strings.HasPrefix(input, "seq=") {
+		return runC19Seq(input) // a history of calls over reused objects: c19seq.go
+	}
+	var dstF, srcF, bufF string
+	for _, kv := range strings.Split(input, ";") {
+		switch {
+		case strings.HasPrefix(kv, "dst="):
+			dstF = kv[4:]
+		case strings.HasPrefix(kv, "src="):
+			srcF = kv[4:]
+		case strings.HasPrefix(kv, "buf="):
+			bufF = kv[4:]
+		}
+	}
+	d := strings.SplitN(dstF, ":", 3)
+	dkind, dval := d[0], d[1]
+	dcap, _ := strconv.Atoi(d[2])
+
+	dd := c19Dest(dkind, dval, dcap)
+	dst, show, text, oldSp := dd.dst, dd.show, dd.text, dd.oldSp
 
 	// source
 	sp := strings.SplitN(srcF, ":", 2)
